@@ -7,6 +7,9 @@ use serde_json::json;
 
 fn main() {
     let args: Vec<String> = std::env::args().skip(1).collect();
+    if args.len() == 3 && args[0] == "--probe" {
+        suites::clivalues::probe(&args[1], &args[2]);
+    }
     let mut model_path = String::from("/verif/lean/.lake/build/bin/frrs-model");
     let mut tier = String::from("quick");
     let mut seed: u64 = 1;
@@ -50,6 +53,7 @@ fn main() {
             "striplookup" => replay_one(&suites::striplookup::suite(), &v["input"], &mut model),
             "dataheader" => replay_one(&suites::shorthash::dataheader_suite(), &v["input"], &mut model),
             "shorthash" => replay_one(&suites::shorthash::shorthash_suite(), &v["input"], &mut model),
+            "clivalues" => replay_one(&suites::clivalues::suite(), &v["input"], &mut model),
             "topn" => replay_one(&suites::analyze::topn_suite(), &v["input"], &mut model),
             "normdetect" => replay_one(&suites::analyze::normalize_suite(), &v["input"], &mut model),
             "unpushed" => replay_one(&suites::sanity::Unpushed, &v["input"], &mut model),
@@ -80,6 +84,7 @@ fn main() {
             "analyze" => suites::analyze::run_analyze(&tier, seed, &mut model),
             "striplookup" => suites::striplookup::run(&tier, seed, &mut model),
             "shorthash" => suites::shorthash::run(&tier, seed, &mut model),
+            "clivalues" => suites::clivalues::run(&tier, seed, &mut model),
             "detect" => suites::analyze::run_detect(&tier, seed, &mut model),
             "commit" => vec![suites::commit::run_keep(&tier, seed, &mut model), suites::commit::run_parents(&tier, seed, &mut model), suites::commit::run_misc(&tier, seed, &mut model)],
             other => {
